@@ -7,7 +7,7 @@ from . import build
 
 FAMS = ["fam_core", "fam_exec", "fam_when", "fam_wait", "fam_shared", "fam_wg", "fam_cmutex", "fam_coro"]
 TARGETS = [(f, v) for f in FAMS for v in ("fib-asan", "thr-tsan", "thr-asan")] + [("fam_stdlocks", "fib-asan"), ("fam_atomdiff", "fib-asan"), ("fam_atomdiff", "thr-asan"),
-                                                                                   ("fam_repro", "fib-asan"), ("fam_cmutex", "fib-asan-nost"), ("fam_coro", "fib-asan-nost")]
+                                                                                   ("fam_repro", "fib-asan"), ("fam_alloc", "plain20"), ("fam_alloc", "plain17"), ("fam_cmutex", "fib-asan-nost"), ("fam_coro", "fib-asan-nost")]
 
 
 def main():
@@ -29,6 +29,16 @@ def main():
             except build.BuildError as e:
                 print("setup:", e)
                 ok = False
+    # generated pipeline programs: the seed-independent length-1 sets used by the quick tier
+    try:
+        import os
+        sys.path.insert(0, build.ROOT)
+        from pipegen import run as pgrun
+        pgrun.build_binary(pgrun.l1_programs(True, 12), "plain20-O0", "l1")
+        pgrun.build_binary(pgrun.l1_programs(True, 60), "asan20", "l1")
+    except build.BuildError as e:
+        print("setup:", e)
+        ok = False
     print("setup %s in %.1f s" % ("ok" if ok else "FAILED", time.time() - t0))
     return 0 if ok else 1
 
